@@ -159,6 +159,8 @@ def check(ctx):
     publication_guards(ctx)
     imputer_memo(ctx)
     vectors.manager_contract(ctx)
+    from ..rules import symmetry
+    symmetry.check_side_symmetry(ctx)
     ctx.floor('A12', 20, 'registered encoder / imputer classes')
     ctx.floor('A13', 8, 'representative reads')
     ctx.floor('A6b', 8, 'look-up / decode sinks')
